@@ -1,0 +1,351 @@
+//! Seams for deterministic simulation. Compiled only with `--cfg cicada_verif`.
+//!
+//! Two ways to attach a simulator:
+//!
+//! * in-process: `install_sim(Box<dyn SimKernel>)` -- `waitpid`, `killpg`,
+//!   `tcsetpgrp` and `getpgid` are answered by the simulator;
+//! * out-of-process: environment variable `CICADA_VERIF_CTL` names a unix
+//!   socket; the shell sends one line at each hook and blocks on the reply.
+//!
+//! With neither attached every hook falls through to the real call.
+#![allow(dead_code)]
+#![allow(unused_imports)]
+
+use std::os::unix::io::RawFd;
+use std::sync::Mutex;
+
+use nix::sys::wait::{WaitPidFlag, WaitStatus};
+use nix::unistd::{ForkResult, Pid};
+
+// read-only exports for the in-process engine
+pub use crate::execute::run_command_line;
+pub use crate::jobc::{try_wait_bg_jobs, wait_fg_job};
+pub use crate::shell::Shell;
+pub use crate::signals::handle_sigchld;
+pub use crate::signals::verif_parked_snapshot;
+pub use crate::types::{CommandResult, Job};
+
+pub trait SimKernel: Send {
+    fn waitpid(&mut self, pid: i32, flags: i32) -> nix::Result<WaitStatus>;
+    fn killpg(&mut self, pgid: i32, sig: i32) -> i32;
+    fn tcsetpgrp(&mut self, fd: i32, pgid: i32) -> i32;
+    fn getpgid(&mut self, pid: i32) -> i32;
+}
+
+lazy_static! {
+    static ref SIM: Mutex<Option<Box<dyn SimKernel>>> = Mutex::new(None);
+    static ref CTL: Mutex<Option<Ctl>> = Mutex::new(None);
+    // (calls left before the failing one, errno)
+    static ref OPEN_PLAN: Mutex<Option<(u32, i32)>> = Mutex::new(None);
+}
+
+pub fn install_sim(sim: Box<dyn SimKernel>) {
+    *SIM.lock().unwrap() = Some(sim);
+}
+
+pub fn remove_sim() -> Option<Box<dyn SimKernel>> {
+    SIM.lock().unwrap().take()
+}
+
+struct Ctl {
+    fd: RawFd,
+    clock: bool,
+}
+
+const CTL_FD_MIN: i32 = 200;
+
+/// Connect to the simulator if `CICADA_VERIF_CTL` is set. Called first thing
+/// in `main`, before any descriptor limit can be lowered.
+pub fn init() {
+    let path = match std::env::var("CICADA_VERIF_CTL") {
+        Ok(x) if !x.is_empty() => x,
+        _ => return,
+    };
+    unsafe {
+        let fd = libc::socket(libc::AF_UNIX, libc::SOCK_STREAM, 0);
+        if fd < 0 {
+            return;
+        }
+        let mut addr: libc::sockaddr_un = std::mem::zeroed();
+        addr.sun_family = libc::AF_UNIX as libc::sa_family_t;
+        let bytes = path.as_bytes();
+        if bytes.len() >= addr.sun_path.len() {
+            libc::close(fd);
+            return;
+        }
+        for (i, b) in bytes.iter().enumerate() {
+            addr.sun_path[i] = *b as libc::c_char;
+        }
+        let len = std::mem::size_of::<libc::sockaddr_un>() as libc::socklen_t;
+        if libc::connect(fd, &addr as *const _ as *const libc::sockaddr, len) != 0 {
+            libc::close(fd);
+            return;
+        }
+        let hi = libc::fcntl(fd, libc::F_DUPFD_CLOEXEC, CTL_FD_MIN);
+        libc::close(fd);
+        if hi < 0 {
+            return;
+        }
+        let clock = std::env::var("CICADA_VERIF_CLOCK").map_or(false, |x| x == "1");
+        *CTL.lock().unwrap() = Some(Ctl { fd: hi, clock });
+        // children started by the shell must not inherit the address
+        std::env::remove_var("CICADA_VERIF_CTL");
+        let msg = format!("hello {} {}", libc::getpid(), libc::getpgid(0));
+        rpc(&msg);
+    }
+}
+
+fn attached() -> bool {
+    CTL.lock().map(|c| c.is_some()).unwrap_or(false)
+}
+
+fn die(why: &str) -> ! {
+    let _ = why;
+    unsafe { libc::_exit(99) }
+}
+
+/// Send one line, park until the simulator answers, return the answer.
+fn rpc(msg: &str) -> String {
+    let guard = CTL.lock().unwrap();
+    let ctl = match guard.as_ref() {
+        Some(c) => c,
+        None => return String::new(),
+    };
+    let mut out = msg.as_bytes().to_vec();
+    out.push(b'\n');
+    let mut off = 0;
+    while off < out.len() {
+        let n = unsafe {
+            libc::send(
+                ctl.fd,
+                out[off..].as_ptr() as *const libc::c_void,
+                out.len() - off,
+                libc::MSG_NOSIGNAL,
+            )
+        };
+        if n <= 0 {
+            if n < 0 && errno::errno().0 == libc::EINTR {
+                continue;
+            }
+            die("ctl send");
+        }
+        off += n as usize;
+    }
+    let mut line = Vec::new();
+    loop {
+        let mut b = [0u8; 1];
+        let n = unsafe { libc::recv(ctl.fd, b.as_mut_ptr() as *mut libc::c_void, 1, 0) };
+        if n <= 0 {
+            if n < 0 && errno::errno().0 == libc::EINTR {
+                continue;
+            }
+            die("ctl recv");
+        }
+        if b[0] == b'\n' {
+            break;
+        }
+        line.push(b[0]);
+    }
+    drop(guard);
+    let reply = String::from_utf8_lossy(&line).to_string();
+    apply_directives(&reply);
+    reply
+}
+
+/// `... openfail <k> <errno>`: the k-th following redirect-target open fails.
+fn apply_directives(reply: &str) {
+    let words: Vec<&str> = reply.split_whitespace().collect();
+    let mut i = 0;
+    while i < words.len() {
+        if words[i] == "openfail" && i + 2 < words.len() {
+            if let (Ok(k), Ok(e)) = (words[i + 1].parse::<u32>(), words[i + 2].parse::<i32>()) {
+                *OPEN_PLAN.lock().unwrap() = if k == 0 { None } else { Some((k, e)) };
+            }
+            i += 3;
+        } else {
+            i += 1;
+        }
+    }
+}
+
+fn injected_errno(reply: &str) -> Option<i32> {
+    let mut it = reply.split_whitespace();
+    if it.next() == Some("fail") {
+        return it.next().and_then(|x| x.parse::<i32>().ok());
+    }
+    None
+}
+
+fn hex(s: &str) -> String {
+    let mut out = String::with_capacity(s.len() * 2);
+    for b in s.as_bytes() {
+        out.push_str(&format!("{:02x}", b));
+    }
+    out
+}
+
+// ---- H2: pipe ------------------------------------------------------------
+
+/// `Some(Err(_))` when the simulator fails this call, `None` to perform it.
+pub fn pipe_hook() -> Option<Result<(RawFd, RawFd), nix::Error>> {
+    if !attached() {
+        return None;
+    }
+    let reply = rpc("pipe?");
+    injected_errno(&reply).map(|e| Err(nix::Error::from_raw(e)))
+}
+
+// ---- H3: fork ------------------------------------------------------------
+
+pub fn fork_hook<F>(real: F) -> nix::Result<ForkResult>
+where
+    F: FnOnce() -> nix::Result<ForkResult>,
+{
+    if !attached() {
+        return real();
+    }
+    let reply = rpc("fork?");
+    if let Some(e) = injected_errno(&reply) {
+        return Err(nix::Error::from_raw(e));
+    }
+    let r = real();
+    match &r {
+        Ok(ForkResult::Child) => {
+            // children never talk to the simulator
+            if let Ok(mut g) = CTL.lock() {
+                if let Some(c) = g.take() {
+                    unsafe { libc::close(c.fd) };
+                }
+            }
+        }
+        Ok(ForkResult::Parent { child }) => {
+            rpc(&format!("fork= {}", child.as_raw()));
+        }
+        Err(e) => {
+            rpc(&format!("fork! {}", *e as i32));
+        }
+    }
+    r
+}
+
+// ---- H4: waitpid ---------------------------------------------------------
+
+fn describe(r: &nix::Result<WaitStatus>) -> String {
+    match r {
+        Ok(WaitStatus::Exited(p, c)) => format!("exited {} {}", p.as_raw(), c),
+        Ok(WaitStatus::Signaled(p, s, _)) => format!("signaled {} {}", p.as_raw(), *s as i32),
+        Ok(WaitStatus::Stopped(p, s)) => format!("stopped {} {}", p.as_raw(), *s as i32),
+        Ok(WaitStatus::Continued(p)) => format!("continued {} 0", p.as_raw()),
+        Ok(WaitStatus::StillAlive) => "alive 0 0".to_string(),
+        Ok(_) => "other 0 0".to_string(),
+        Err(e) => format!("err 0 {}", *e as i32),
+    }
+}
+
+/// Same signature as `nix::sys::wait::waitpid`.
+pub fn waitpid<P: Into<Option<Pid>>>(
+    pid: P,
+    options: Option<WaitPidFlag>,
+) -> nix::Result<WaitStatus> {
+    let pid: Option<Pid> = pid.into();
+    let flags = options.unwrap_or(WaitPidFlag::empty());
+    {
+        let mut sim = SIM.lock().unwrap();
+        if let Some(s) = sim.as_mut() {
+            let raw = pid.map_or(-1, |p| p.as_raw());
+            return s.waitpid(raw, flags.bits());
+        }
+    }
+    if !attached() || flags.contains(WaitPidFlag::WNOHANG) {
+        return nix::sys::wait::waitpid(pid, options);
+    }
+    // a blocking wait becomes: park, poll once, report, park again if
+    // there was nothing -- the shell is never left inside the kernel
+    loop {
+        rpc("wait?");
+        let r = nix::sys::wait::waitpid(pid, Some(flags | WaitPidFlag::WNOHANG));
+        rpc(&format!("wait= {}", describe(&r)));
+        if let Ok(WaitStatus::StillAlive) = r {
+            continue;
+        }
+        return r;
+    }
+}
+
+// ---- H5: redirect-target open ---------------------------------------------
+
+/// errno to fail this open with, if the plan says so.
+pub fn open_hook(_path: &str) -> Option<i32> {
+    let mut plan = OPEN_PLAN.lock().unwrap();
+    if let Some((k, e)) = *plan {
+        if k <= 1 {
+            *plan = None;
+            return Some(e);
+        }
+        *plan = Some((k - 1, e));
+    }
+    None
+}
+
+pub fn errno_text(e: i32) -> String {
+    format!("{}", std::io::Error::from_raw_os_error(e))
+}
+
+// ---- H6: clock -------------------------------------------------------------
+
+pub fn now_hook() -> Option<f64> {
+    {
+        let g = CTL.lock().ok()?;
+        match g.as_ref() {
+            Some(c) if c.clock => {}
+            _ => return None,
+        }
+    }
+    let reply = rpc("now?");
+    let mut it = reply.split_whitespace();
+    if it.next() == Some("t") {
+        return it.next().and_then(|x| x.parse::<f64>().ok());
+    }
+    None
+}
+
+// ---- H7: process-group calls ------------------------------------------------
+
+pub mod libc_shim {
+    pub use libc::*;
+
+    pub unsafe fn killpg(pgrp: c_int, sig: c_int) -> c_int {
+        if let Some(s) = super::SIM.lock().unwrap().as_mut() {
+            return s.killpg(pgrp, sig);
+        }
+        libc::killpg(pgrp, sig)
+    }
+
+    pub unsafe fn tcsetpgrp(fd: c_int, pgrp: pid_t) -> c_int {
+        if let Some(s) = super::SIM.lock().unwrap().as_mut() {
+            return s.tcsetpgrp(fd, pgrp);
+        }
+        libc::tcsetpgrp(fd, pgrp)
+    }
+
+    pub unsafe fn getpgid(pid: pid_t) -> pid_t {
+        if let Some(s) = super::SIM.lock().unwrap().as_mut() {
+            return s.getpgid(pid);
+        }
+        libc::getpgid(pid)
+    }
+}
+
+// ---- H8: park points ---------------------------------------------------------
+
+pub fn yield_point(name: &str) {
+    if attached() {
+        rpc(name);
+    }
+}
+
+pub fn on_pipeline_done(cmd: &str, status: i32) {
+    if attached() {
+        rpc(&format!("done {} {}", status, hex(cmd)));
+    }
+}
